@@ -45,7 +45,9 @@ func (l *genericFileSessionLoader) Load() (*Session, error) {
 	}
 
 	if info.ModTime().Equal(l.lastEdited) && l.cached != nil {
-		return l.cached, nil
+		// the caller gets a session of its own: whatever it does with it (LoadSession keeps the
+		// slices, applications wipe key material) must not change what the next Load returns
+		return l.cached.clone(), nil
 	}
 
 	data, err := ioutil.ReadFile(l.path)
@@ -67,7 +69,7 @@ func (l *genericFileSessionLoader) Load() (*Session, error) {
 	l.cached = s
 	l.lastEdited = info.ModTime()
 
-	return s, nil
+	return s.clone(), nil
 }
 
 func (l *genericFileSessionLoader) Store(s *Session) error {
